@@ -299,6 +299,14 @@ func (lexEngine) Gen(r *Rand, tier string) [][]string {
 			add("ast " + Hex([]byte(s)))
 		}
 	}
+	// directed: compound identifiers assembled from separately collected tokens
+	for _, s := range lexQualifiedNameShapes() {
+		if lexAccepted([]byte(s)) {
+			add("ast " + Hex([]byte(s)))
+		} else {
+			add("lex l " + Hex([]byte(s)))
+		}
+	}
 	cnt := 700
 	if tier == "thorough" {
 		cnt = 40000
@@ -1132,6 +1140,80 @@ func lexEscapeNewlineShapes() []string {
 	}
 	out = append(out, "// c\n", "// c\r\n", "/* c\n", "/* c\n*/", "/* c\n*/\n", "a // c\n", "a /* c\n\n", "$ // c\n$", "/*\n*/$\n$",
 		"\xef\xbb\xbf\n", "\xef\xbb\xbf\n\n$", "\xef\xbb\xbf\"\n$", "\xef\xbb\xbf// c\n$", "\xef\xbb\xbf\"\\u00\n41\"\n$", "\n\xef\xbb\xbf\n$")
+	return out
+}
+
+// lexQualifiedNameShapes: qualified names of 2-4 components (with and without a leading dot) whose
+// first component is a contextual keyword or a plain identifier, with DIFFERENT trivia before each
+// dot and each component, in every grammar position that builds a compound identifier from
+// separately collected identifier and dot tokens: label-less field types (message, oneof, extend,
+// group body, map value), extendees, rpc input/output types, option names with extension parts,
+// message-literal extension / Any references; plus reserved and extension ranges with varied trivia.
+// The AST round trip (`ast` op) prints these back only if every dot token sits between the right
+// components.
+func lexQualifiedNameShapes() []string {
+	heads := []string{"export", "local", "optional", "repeated", "required", "map", "group", "stream", "returns", "to", "max",
+		"inf", "nan", "true", "false", "message", "option", "foo", "Bar_1"}
+	rest := []string{"a", "Bz", "c_1"}
+	trivia := []string{"", " ", " /* c */ ", "\t", "\n", " /*d*/", "  ", "\n\t// e\n", "/**/"}
+	var names []string
+	for hi, h := range heads {
+		for k := 2; k <= 4; k++ {
+			for _, lead := range []bool{false, true} {
+				for rot := 0; rot < 2; rot++ {
+					t := func(i int) string { return trivia[(hi+3*rot+2*k+i)%len(trivia)] }
+					var b strings.Builder
+					n := 0
+					if lead {
+						b.WriteString(".")
+						b.WriteString(t(n))
+						n++
+					}
+					b.WriteString(h)
+					for j := 1; j < k; j++ {
+						b.WriteString(t(n))
+						n++
+						b.WriteString(".")
+						b.WriteString(t(n))
+						n++
+						b.WriteString(rest[(j-1)%len(rest)])
+					}
+					names = append(names, b.String())
+				}
+			}
+		}
+	}
+	var out []string
+	for i, nm := range names {
+		ctxs := []string{
+			"message M { " + nm + " f = 1; }",
+			"syntax = \"proto3\";\nmessage M {\n  " + nm + " f = 1;\n}\n",
+			"message M { oneof o { " + nm + " f = 1; } }",
+			"extend " + nm + " { " + nm + " f = 1; }",
+			"extend " + nm + " { optional int32 f = 1; }",
+			"message M { optional group G = 1 { " + nm + " f = 2; } }",
+			"message M { map<string, " + nm + "> m = 1; }",
+			"service S { rpc M(" + nm + ") returns (stream " + nm + "); }",
+			"service S { rpc M( stream " + nm + " ) returns ( " + nm + " ) { option (" + nm + ") = 1; } }",
+			"option (" + nm + ").x = 1;",
+			"option a.(" + nm + ") /*1*/ . /*2*/ b = 1;",
+			"message M { optional int32 f = 1 [(" + nm + ") = 1, a /*x*/ . (" + nm + ")\t.b = 2]; }",
+			"option x = { [" + nm + "]: 1 };",
+			"option x = { [a.b /*s*/ / " + nm + "] { } };",
+		}
+		// every name in two contexts, rotating through all of them
+		out = append(out, ctxs[i%len(ctxs)], ctxs[(i*5+3)%len(ctxs)])
+	}
+	out = append(out,
+		"message M { reserved 1 /*a*/ to /*b*/ 5 , 7\nto max ; extensions 10\tto 20 , 30 ; reserved \"a\" /*x*/ , \"b\" ; }",
+		"message M { extensions 1 to /*m*/ max /*o*/ [ (a) /*p*/ = 1 /*q*/ , b\t.c = 2 ] /*r*/ ; }",
+		"enum E { A = 0; reserved -1 /*a*/ to\t1 , 5 to /*b*/ max , 9 ; reserved \"X\"\t, \"Y\"; }",
+		"message M { reserved a /*1*/ , b\t, c ; }",
+		"export .foo.Bar a = 1;", "message M { export .foo.Bar a = 1; local.foo /* c */ .Bar x = 2; }",
+		"message M { export /*1*/ . /*2*/ a /*3*/ . /*4*/ B /*5*/ . /*6*/ C x = 1; }",
+		"message M { local\t.\na  .\tB\n.C x = 1; }",
+		"local message M { export enum E { A = 0; } local.x.Y f = 1; export . x . Y g = 2; }",
+	)
 	return out
 }
 
